@@ -5,26 +5,28 @@
 (*          scenario features and the span widths                                                       *)
 (*   GET  : one event per shown character code, in content stream order, paired with the laid-out glyph  *)
 (*          (glyph id, advances, cluster characters, source advance, outline signatures)                *)
-(*   END  : document-level predicates                                                                   *)
+(*   END  : document-level predicates, incl. PDF pen advance x Tf size = span width (variable pen)       *)
 (*   PATH : a FontFace.ToPath / TextWidth observation (independent of the PDF)                          *)
 (* GET events drive the subsetter machine of FontEmbed (action Get): the code in the content stream must *)
 (* be the code the machine returns; the per-glyph predicates are evaluated in the same step.  Deviations  *)
 (* are printed (the actions never block), the driver turns them into verdicts.                           *)
 EXTENDS FontEmbed
 Trace == ndJsonDeserialize("trace_fontembed.ndjson")
-VARIABLE l
-tvars == <<vars, l>>
+VARIABLES l,
+          pen    \* per span of the current document: sum of the pen advances of its shown codes, in 1/1000 em
+tvars == <<vars, l, pen>>
 Ev == Trace[l]
 Is(ops) == l <= Len(Trace) /\ Ev.op \in ops /\ l' = l + 1
 Note(f, id, k) == f # {} => PrintT("@@" \o ToJson([id |-> id, k |-> k, fails |-> f]))
 
-TDoc == Is({"DOC"}) /\ ids' = NewSubsetter /\ hist' = <<>> /\ doc' = Ev.d
+TDoc == Is({"DOC"}) /\ ids' = NewSubsetter /\ hist' = <<>> /\ doc' = Ev.d /\ pen' = [i \in 1..Len(Ev.d.spans) |-> 0]
 TGet == /\ Is({"GET"}) /\ Get(Ev.e.g)
         /\ Note(GlyphDiag(doc, doc.fonts[Ev.e.f], Ev.e, ids), Ev.id, Len(hist) + 1)
-TEnd == Is({"END"}) /\ Note(DocDiag(doc), Ev.id, 0) /\ UNCHANGED vars
-TPath == Is({"PATH"}) /\ Note(PathDiag(Ev.p), Ev.id, 0) /\ UNCHANGED vars
+        /\ pen' = [pen EXCEPT ![Ev.e.span] = @ + PenOf(doc.fonts[Ev.e.f], Ev.e)]
+TEnd == Is({"END"}) /\ Note(DocDiag(doc) \cup SpanAgreeDiag(doc, pen), Ev.id, 0) /\ UNCHANGED <<vars, pen>>
+TPath == Is({"PATH"}) /\ Note(PathDiag(Ev.p), Ev.id, 0) /\ UNCHANGED <<vars, pen>>
 
-TInit == l = 1 /\ ids = NewSubsetter /\ hist = <<>> /\ doc = NoDoc
+TInit == l = 1 /\ ids = NewSubsetter /\ hist = <<>> /\ doc = NoDoc /\ pen = <<>>
 TNext == TDoc \/ TGet \/ TEnd \/ TPath
 TSpec == TInit /\ [][TNext]_tvars
 TraceAccepted == TLCGet("stats").diameter - 1 = Len(Trace)
